@@ -826,6 +826,19 @@ def run(ctx):
 
 
 def replay(case, acc):
+    """The input of the replay file is presented up to three times in this fresh process: a library that answers a
+    repeated presentation differently from the first one (state kept between calls) was caught by the grids, which
+    present the same domain many times, and must reproduce here; for a library without such state the second and third
+    presentation are the first one again."""
+    for presentation in range(3):
+        _replay_once(case, acc)
+        if acc.viol:
+            if presentation:
+                acc.observe("replay: the violation appears at presentation %d of the same input in one process, not at the first" % (presentation + 1))
+            return
+
+
+def _replay_once(case, acc):
     install_seams()
     part = case["part"]
     if part == "rsa":
